@@ -298,8 +298,10 @@ Print Assumptions c06_sam_bam_agree.
 
 (* ---- the complete property as one statement, kept visible.  Its three conjuncts are now proved
    separately for the concrete models (c06_header_roundtrip_partial, c06_record_roundtrip_partial,
-   c06_bam_header_roundtrip + c06_sam_bam_agree per record); what is NOT proved is the file-level
-   composition (a whole BAM stream = header block followed by framed records read in a loop). *)
+   c06_bam_header_roundtrip + c06_sam_bam_agree per record) and, since round 4, composed at file
+   level as ONE theorem (c06_file_sam_bam_agree at the end of this file, with the premises under
+   which it is true).  The unconditional statement below stays a Definition: it is false of the
+   faithful models in exactly the two refuted classes (comment ending in CR, single score 9). *)
 Section FullStatement.
   Variable header : Type.
   Variable write_header : header -> option bytes.
@@ -329,7 +331,8 @@ End FullStatement.
    POS / PNEXT text denoting 0 must be the single character "0" -- the lazy accessor compares the
    text with "0" and otherwise rejects a parsed 0 (Position::try_from), the eager parser takes
    "00" or "+0" as missing (c06_lazy_pos_noncanonical_refuted).  noodles' own writer only emits
-   "0".  The typed lazy parsers of the optional fields (record/data/field/*.rs) are not modelled. *)
+   "0".  The typed lazy parsers of the optional fields (record/data/field/*.rs) are modelled in
+   NV.Sam.LazyData; their theorems (c06_lazy_convert_eq_eager, c06_lazy_data_eq_eager) follow below. *)
 Theorem c06_lazy_eq_eager : forall parse32 parse32p refs text r,
   parse_line parse32 parse32p refs text = POk r ->
   let fs := split_tab (line_of text) in
